@@ -1,5 +1,6 @@
 import UberjobModel.Model.Exec
 import UberjobModel.Model.ExecNorm
+import UberjobModel.Model.ExecProd
 import UberjobModel.Model.PhysDrv
 /-!
   Driver command for the execution model (stateless):
@@ -78,6 +79,22 @@ def parseStoreTok (t : String) : Option (Nat × V × Int) :=
 def worldOf (l : List (Nat × V × Int)) : World :=
   ⟨fun i => (l.find? (fun e => e.1 == i)).map (fun e => (e.2.1, e.2.2))⟩
 
+def parseProds (s : String) : List (Nat × Nat) :=
+  (toks s).filterMap (fun t => match t.splitOn ">" with
+    | [a, b] => do some ((← a.toNat?), (← b.toNat?))
+    | _ => none)
+
+def runReply (P : Input) (order : List PN) (x : XSt) : String :=
+  let regs := sortStrs ((P.reg.filterMap (fun r => (x.w.st r.1).map (fun vt => s!"{r.1}={vt.1.toStr}@{vt.2}"))))
+  let slots := order.filterMap (fun a => match a with
+    | .orig _ => some s!"{a.str}={(x.get P a).toStr}"
+    | .read _ => some s!"{a.str}={(x.get P a).toStr}"
+    | _ => none)
+  let out := match physOut P with
+    | some a => (x.get P a).toStr
+    | none => "-"
+  "stores " ++ " ".intercalate regs ++ " | slots " ++ " ".intercalate slots ++ " | out " ++ out
+
 def drv (line : String) : String :=
   match line.splitOn "|" with
   | [hd, ns, es, rs, st, o, wd, c, ord] =>
@@ -90,15 +107,18 @@ def drv (line : String) : String :=
         -- `execn`: every non-source store normalises (`tagNorm`)
         let x := if cmd == "execn" then order.foldl (execNodeN P tagNorm (physFinal P)) (initX (worldOf stores) c0)
                  else order.foldl (execNode P (physFinal P)) (initX (worldOf stores) c0)
-        let regs := sortStrs ((P.reg.filterMap (fun r => (x.w.st r.1).map (fun vt => s!"{r.1}={vt.1.toStr}@{vt.2}"))))
-        let slots := order.filterMap (fun a => match a with
-          | .orig _ => some s!"{a.str}={(x.get P a).toStr}"
-          | .read _ => some s!"{a.str}={(x.get P a).toStr}"
-          | _ => none)
-        let out := match physOut P with
-          | some a => (x.get P a).toStr
-          | none => "-"
-        "stores " ++ " ".intercalate regs ++ " | slots " ++ " ".intercalate slots ++ " | out " ++ out
+        runReply P order x
+    | _, _, _, _, _ => "bad-op"
+  | [hd, ns, es, rs, st, o, wd, c, ord, prods] =>
+    -- `execp … | j>d j>d`: producers (`Model/ExecProd.lean`): call `j` rewrites the dependent source `d`
+    match toks hd, parseInput ns es rs st o, (toks wd).mapM parseStoreTok, (toks c), (toks ord).mapM parsePN with
+    | ["execp"], some P, some stores, [c0s], some order =>
+      match c0s.toInt? with
+      | none => "bad-op"
+      | some c0 =>
+        let pl := parseProds prods
+        let pr : Nat → Option Nat := fun j => (pl.find? (fun e => e.1 == j)).map (·.2)
+        runReply P order (order.foldl (execNodeP P pr (physFinal P)) (initX (worldOf stores) c0))
     | _, _, _, _, _ => "bad-op"
   | _ => "bad-op"
 
